@@ -36,9 +36,12 @@ Fire(d) == /\ d \notin fired /\ RoomAt(Target[d])
 \* physics: the fired device's ball leaves towards the target (and may fall back), or does not move at all
 \* (a device that counts by an entrance switch cannot sense a failed eject - the ball never passes the entrance again -
 \*  so failed ejects of such devices are outside what any controller could get right and are not part of the world)
-Leave(d, b, kind) == /\ d \in fired /\ loc[b] = At(d) /\ (d \in EntranceCounted => kind = "ok") /\ loc' = [loc EXCEPT ![b] = <<"transit", d, Target[d], kind>>]
+\* kind "late": as "ok", but the ball takes longer than the eject timeout to arrive (a late confirmation for MPF; for the
+\* world it is a ball on its way like any other)
+Leave(d, b, kind) == /\ d \in fired /\ loc[b] = At(d) /\ (d \in EntranceCounted => kind = "ok")
+                     /\ loc' = [loc EXCEPT ![b] = <<"transit", d, Target[d], IF kind = "late" THEN "ok" ELSE kind>>]
                      /\ fired' = fired \ {d} /\ act' = [op |-> "leave", d |-> d, kind |-> kind]
-                     /\ rel' = [rel EXCEPT ![d] = IF kind = "ok" /\ @ > 0 THEN @ - 1 ELSE @] /\ UNCHANGED <<want, nops>>
+                     /\ rel' = [rel EXCEPT ![d] = IF kind # "back" /\ @ > 0 THEN @ - 1 ELSE @] /\ UNCHANGED <<want, nops>>
 NoLeave(d) == /\ d \in fired /\ d \notin EntranceCounted /\ fired' = fired \ {d} /\ act' = [op |-> "noleave", d |-> d] /\ UNCHANGED <<loc, want, rel, nops>>
 Arrive(b) == /\ Transit(b)
              /\ loc' = [loc EXCEPT ![b] = At(IF loc[b][4] = "ok" THEN loc[b][3] ELSE loc[b][2])]
@@ -68,7 +71,7 @@ Escape(b, d) == /\ Budget /\ d \in Escapable /\ loc[b] = At(d) /\ d \notin fired
                 /\ want' = (IF d = Home THEN want + 1 ELSE want) /\ UNCHANGED <<fired, rel>>
 \* a ball is requested for the playfield (ball start, ball save, multiball add, manual request)
 Request == /\ Budget /\ want' = want + 1 /\ act' = [op |-> "request"] /\ UNCHANGED <<loc, fired, rel>>
-Next == \/ \E d \in Devs : Fire(d) \/ NoLeave(d) \/ \E b \in Balls, k \in {"ok", "back"} : Leave(d, b, k)
+Next == \/ \E d \in Devs : Fire(d) \/ NoLeave(d) \/ \E b \in Balls, k \in {"ok", "back", "late"} : Leave(d, b, k)
         \/ \E b \in Balls : Arrive(b) \/ Drain(b) \/ \E d \in Devs : Shot(b, d) \/ Escape(b, d) \/ Bounce(b, d)
         \/ \E d \in Devs : Release(d)
         \/ Request
